@@ -18,8 +18,7 @@ CONSTANTS
   WSMiner <- WSM
   WSNumber <- WSN
   WSWeight <- WSW
-  Layouts <- LayQ
-  Bytes <- BytesQ
+  Profiles <- ProfQ
 VIEW view
 INVARIANTS TypeOK ShareRewardedAtMostOncePerChain RewardAmountIsFormula CreditExactlyAtUnlock CreditAmountExact ClaimOnlyOwnerAfterUnlockOnce ClaimAmountIsAccumulated
 CHECK_DEADLOCK FALSE
